@@ -368,7 +368,8 @@ class ConcDict(object):
 def concdict_method(I, st, ref, name, ca, node):
     d = st.get(ref)
     a = ca.pos
-    if not d.items and a and not isinstance(a[0], StrV) and name in ('__delitem__', 'pop', '__getitem__', 'get', '__contains__'):
+    if not d.items and ((a and not isinstance(a[0], StrV) and name in ('__delitem__', 'pop', '__getitem__', 'get', '__contains__', 'setdefault',
+                                                                         '__setitem__', 'update')) or (name == 'popitem' and not a)):
         # an empty dict literal asked about an arbitrary key: the dict contract on the empty map
         s0 = st.fork()
         s0.put(ref, DictObj.empty('Val', role='fresh'))
@@ -1004,6 +1005,11 @@ def setitem(I, st, o, k, v, node):
             items[i] = v
             s.put(o, ListObj(items, obj.role))
             return [(s, NONE)]
+        if obj.kind == 'concdict' and not obj.items and not isinstance(k, StrV):
+            # an empty dict literal given an arbitrary key: from here on the dict contract
+            s0 = st.fork()
+            s0.put(o, DictObj.empty('Val', role='fresh'))
+            return dict_setitem(I, s0, o, k, v, node)
         if obj.kind == 'concdict' and isinstance(k, StrV):
             s = st.fork()
             items = dict(obj.items)
@@ -1192,6 +1198,11 @@ def identical(I, st, a, b):
         return a.cid == b.cid
     if isinstance(a, ClassV):
         return a is b or a.name == b.name
+    if isinstance(a, FuncV):
+        # modelled builtins (str, int, ...): one object per engine
+        if a is b:
+            return True
+        return False if a.name != b.name else None
     return None
 
 
